@@ -5,10 +5,6 @@ From JT.Proofs Require Import Subpkg_proofs.
 From Coq Require Import ZArith ZifyN ZifyNat ZifyBool.
 Ltac Zify.zify_post_hook ::= Z.div_mod_to_equations.
 
-(* the re-requests for X in the output of one event *)
-Definition rr_for (X : N) (o : eout) : list rereq :=
-  match o with ORereq l => filter (fun r => rr_id r =? X) l | _ => [] end.
-
 Lemma step_end_rr X now s : wf s ->
   rr_for X (snd (step now s EvEnd)) =
   match find X s with
@@ -44,7 +40,7 @@ Let NN := N.of_nat n.
    stamp is more than 5 s old, then exactly one re-request, addressed from packet 1's header,
    naming packet 1's serial and exactly the missing numbers, ascending *)
 Theorem exact_list s0 t1 p1 rest now :
-  wf s0 -> good_pkt X NN bodies p1 -> m_no p1 = 1 -> Forall (ok_after X n bodies t1) rest ->
+  wf s0 -> good_pkt X NN bodies p1 -> m_no p1 = 1 -> Forall (ok_after_n X n bodies t1) rest ->
   ~ covers NN (numbers X NN ((t1, EvMsg p1) :: rest)) -> now <= t1 + 60000 ->
   let evs := (t1, EvMsg p1) :: rest in
   let miss := missing_of NN (numbers X NN evs) in
@@ -76,7 +72,7 @@ Qed.
    transfer without a re-request, and whatever arrives afterwards - all the remaining packets
    included - delivers nothing for X and re-requests nothing, until a new packet 1 *)
 Theorem expiry s0 t1 p1 rest now later :
-  wf s0 -> good_pkt X NN bodies p1 -> m_no p1 = 1 -> Forall (ok_after X n bodies t1) rest ->
+  wf s0 -> good_pkt X NN bodies p1 -> m_no p1 = 1 -> Forall (ok_after_n X n bodies t1) rest ->
   ~ covers NN (numbers X NN ((t1, EvMsg p1) :: rest)) -> t1 + 60000 < now ->
   Forall (fun te => no_start X (snd te)) later ->
   let outs := snd (run s0 (((t1, EvMsg p1) :: rest) ++ (now, EvEnd) :: later)) in
@@ -182,11 +178,6 @@ Proof.
   eapply rr_needs_old_stamp; [| |exact H2]. now apply wf_run. now apply stamp_run.
 Qed.
 
-(* a sub-package of X that completePack stores: packet 1, or a number within the table *)
-Definition stored (X : N) (s : pstate) (m : msg) : Prop :=
-  m_id m = X /\ m_sum m <> 0 /\
-  (m_no m = 1 \/ exists x, find X s = Some x /\ 1 <= m_no m <= len (x_slots x)).
-
 (* C14 none before 5 s: no re-request for X earlier than 5 s after a stored packet of X *)
 Theorem quiet_after_packet X s t m between tj : wf s -> stored X s m ->
   Forall (fun te => t <= fst te) between ->
@@ -221,3 +212,46 @@ Proof.
   intros Hwf Hf Hexp. rewrite step_end_find, step_end_rr by exact Hwf. rewrite Hf. unfold expired.
   replace (x_create x + 60000 <? now) with true by lia. auto.
 Qed.
+
+Section Transfer3.
+Variable X : N.
+Variable n : nat.
+Variable bodies : list (list N).
+Hypothesis Hlen : length bodies = n.
+Hypothesis Hne : Forall nonempty bodies.
+Hypothesis Hn1 : (1 <= n)%nat.
+Let NN := N.of_nat n.
+
+(* C14: a re-request round followed by resupply.  After packet 1 and rest1 (incomplete, stamp older
+   than 5 s at time tr) the end of read at tr re-requests exactly the missing numbers; when the
+   events after it bring the last missing number (event (t, m), position length l1) the message is
+   delivered there, once, with the concatenation of the bodies, as in C05 *)
+Theorem then_completes s0 t1 p1 rest1 tr rest2 l1 t m l2 :
+  wf s0 -> good_pkt X NN bodies p1 -> m_no p1 = 1 ->
+  Forall (ok_after_n X n bodies t1) rest1 -> tr <= t1 + 60000 -> Forall (ok_after_n X n bodies t1) rest2 ->
+  ~ covers NN (numbers X NN ((t1, EvMsg p1) :: rest1)) ->
+  last_stamp X NN t1 rest1 + 5000 < tr ->
+  let evs := ((t1, EvMsg p1) :: rest1) ++ (tr, EvEnd) :: rest2 in
+  evs = l1 ++ (t, EvMsg m) :: l2 ->
+  ~ covers NN (numbers X NN l1) -> covers NN (numbers X NN (l1 ++ [(t, EvMsg m)])) ->
+  let outs := snd (run s0 evs) in
+  let miss := missing_of NN (numbers X NN ((t1, EvMsg p1) :: rest1)) in
+  rr_for X (nth (S (length rest1)) outs ONone) =
+    [{| rr_id := X; rr_first := p1; rr_list := miss; rr_body := body_8003 (m_serial p1) (len miss) miss |}] /\
+  completions X outs = [(length l1, concat bodies)].
+Proof.
+  intros Hwf Hg H1 Hall1 Htr Hall2 Hnc Hstamp evs Hsplit Hnc1 Hc1 outs miss. subst evs outs miss. unfold NN in *.
+  split.
+  - pose proof (exact_list X n bodies Hlen Hne Hn1 s0 t1 p1 rest1 tr Hwf Hg H1 Hall1 Hnc Htr) as Hrr.
+    cbn zeta in Hrr. replace (last_stamp X (N.of_nat n) t1 rest1 + 5000 <? tr) with true in Hrr by lia.
+    rewrite run_app. pose proof (run_length s0 ((t1, EvMsg p1) :: rest1)) as Hl1.
+    destruct (run s0 ((t1, EvMsg p1) :: rest1)) as [s1 o1]. cbn [fst snd length] in *.
+    cbn [run]. destruct (step tr s1 EvEnd) as [s2 o]. destruct (run s2 rest2) as [s3 o3]. cbn [fst snd] in *.
+    rewrite <- Hl1. rewrite app_nth2 by lia. rewrite Nat.sub_diag. cbn [nth]. exact Hrr.
+  - change (((t1, EvMsg p1) :: rest1) ++ (tr, EvEnd) :: rest2)
+      with ((t1, EvMsg p1) :: (rest1 ++ (tr, EvEnd) :: rest2)) in *.
+    apply (exact X n bodies Hlen Hne Hn1 s0 t1 p1 (rest1 ++ (tr, EvEnd) :: rest2) l1 t m l2); auto.
+    apply Forall_app. split. exact Hall1. constructor; [|exact Hall2]. split. exact Htr. exact I.
+Qed.
+
+End Transfer3.
